@@ -336,6 +336,8 @@ double ComputeValue(const PLConstraint& con, const VarVec& x) {
   const auto& plp = con.GetParameters().GetPLPoints();
   assert(!plp.empty());
   auto x0 = x[con.GetArguments()[0]];        // position
+  if (std::isnan(x0))                        // all comparisons below fail
+    return x0;
   if (x0<plp.x_.front())
     return plp.y_.front()
         - plp.PreSlope()*(plp.x_.front() - x0);
